@@ -45,6 +45,9 @@ func buildGroovyMap(pathExprCtx *parser.PathExpressionContext) []core_domain.Cod
 			return nil
 		}
 	}
+	if pathExprCtx.GetChildCount() < 2 {
+		return nil
+	}
 	pathChild := pathExprCtx.GetChild(1)
 	if pathChild != nil {
 		pathElement := pathChild.(*parser.PathElementContext)
